@@ -105,7 +105,9 @@ def classify(pid, unit_results):
                 ok = ln not in bad_lines and fk not in fn_unreliable
                 if ok:
                     n_dis += 1
-                e = per_tag.setdefault(t, {"lines": 0, "discharged": 0, "units": set(), "fns": set()})
+                e = per_tag.setdefault(t, {"lines": 0, "discharged": 0, "units": set(), "fns": set(), "homes": set()})
+                _it = item_of_line(res, ln)
+                e["homes"].add("%s:%s" % (unit, _it["name"] if _it else fk[1]))
                 e["lines"] += 1
                 e["discharged"] += 1 if ok else 0
                 e["units"].add(unit)
@@ -117,7 +119,7 @@ def classify(pid, unit_results):
             # implicit obligations: every unwrap/index precondition in the unit's extracted functions
             cnt = sum(len(re.findall(r"\.unwrap\(\)|\.expect\(", l)) for l in res.lines)
             failed_here = sum(1 for (t, u, d) in failing if t == nopanic and u == unit)
-            per_tag[nopanic] = {"lines": cnt, "discharged": max(0, cnt - failed_here), "units": {unit}, "fns": set(), "implicit": True}
+            per_tag[nopanic] = {"lines": cnt, "discharged": max(0, cnt - failed_here), "units": {unit}, "fns": set(), "homes": set(), "implicit": True}
             n_obl += cnt
             n_dis += max(0, cnt - failed_here)
     return {"failing": failing, "undecided": undecided, "obligations": n_obl, "discharged": n_dis, "per_tag": per_tag, "samples": samples}
@@ -126,10 +128,11 @@ def classify(pid, unit_results):
 def check_baseline(pid, per_tag):
     base = load_json(BASELINE, {}).get(pid, {})
     missing = []
-    for t, n in base.items():
-        have = per_tag.get(t, {}).get("lines", 0)
-        if have < n:
-            missing.append("%s: %d obligation line(s) generated, baseline has %d" % (t, have, n))
+    for t, homes in base.items():
+        have = per_tag.get(t, {}).get("homes", set())
+        for h in homes:
+            if h not in have:
+                missing.append("%s: no obligation generated in %s (present in the committed baseline)" % (t, h))
     return missing
 
 
@@ -161,7 +164,7 @@ def assume_scan(unit_results):
                 bad.append("%s: unit.rs:%d: %s" % (unit, i + 1, l.strip()[:120]))
             if "arm_verified_in_another_copy" in s and "fn arm_verified_in_another_copy" not in s:
                 it = item_of_line(res, i + 1)
-                if not (it and it.get("split_arm")):
+                if not (it and it.get("split_arm") and not it["split_arm"].startswith("callers' view")):
                     bad.append("%s: unit.rs:%d: arm_verified_in_another_copy() outside a case-split copy" % (unit, i + 1))
     return bad
 
@@ -176,6 +179,10 @@ def split_coverage(unit_results):
             if it.get("split_arm"):
                 groups.setdefault(it["name"], []).append(it)
         for name, its in groups.items():
+            views = [it for it in its if it["split_arm"].startswith("callers' view")]
+            its = [it for it in its if not it["split_arm"].startswith("callers' view")]
+            if len(views) != 1:
+                bad.append("%s: %s: %d callers' views of a case-split function" % (unit, name, len(views)))
             lives = [it["split_arm"] for it in its]
             if len(set(lives)) != len(lives):
                 bad.append("%s: %s: duplicate live arm among case-split copies" % (unit, name))
@@ -190,7 +197,7 @@ def split_coverage(unit_results):
 def run_scenario(tag):
     """black-box witness: scenarios/<tag>.sh against a binary built from the current tree"""
     sc = os.path.join(VERIF, "scenarios", tag + ".sh")
-    if not os.path.exists(sc):
+    if not os.path.exists(sc) or os.environ.get("ZV_NO_WITNESS"):
         return None
     env = dict(os.environ, CARGO_NET_OFFLINE="true")
     b = subprocess.run(["cargo", "build", "--offline"], cwd=zv.REPO, stdout=subprocess.PIPE, stderr=subprocess.STDOUT, text=True, env=env)
@@ -272,7 +279,7 @@ def main(argv):
     undecided += split_coverage(results)
     if update_baseline:
         base = load_json(BASELINE, {})
-        base[pid] = {t: e["lines"] for t, e in sorted(cl["per_tag"].items()) if not e.get("implicit")}
+        base[pid] = {t: sorted(e["homes"]) for t, e in sorted(cl["per_tag"].items()) if not e.get("implicit")}
         json.dump(base, open(BASELINE, "w"), indent=1, sort_keys=True)
         print("baseline for %s: %d tags" % (pid, len(base[pid])))
     undecided += ["baseline: " + m for m in check_baseline(pid, cl["per_tag"])]
